@@ -819,6 +819,145 @@ pub fn fam_cumulative(seed: u64, tier: &str, index: u64) -> Scenario {
     Scenario { fam: "cumulative".into(), id: index, opts, steps: g.steps, engine: true }
 }
 
+/// `cumulative2` (C08): the interaction patterns the single-constraint family does not reach.
+/// Variant A (even index): 4-5 tasks of short duration on a small capacity with narrow start
+/// ranges, some of them fixed by unary clauses AFTER the cumulative was posted, and a long task
+/// declared last that spans the others (profiles separated by small gaps get bridged).
+/// Variant B (odd index): 2-3 tasks plus 2-3 zero-one switches, each switch forcing several
+/// tasks onto bounds through binary clauses; with input order the same overload is derived again
+/// after every backtrack. All solutions are iterated; the option combination is index-driven.
+pub fn fam_cumulative2(seed: u64, tier: &str, index: u64) -> Scenario {
+    let mut g = Gen::new(rng_for(seed, "cumulative2", index), params(tier));
+    let all = CumOpts::all();
+    let copts = all[((index / 2) as usize) % all.len()];
+    let mut starts: Vec<View> = vec![];
+    let (d, r, cap);
+    let mut order: Vec<u32> = vec![];
+    if index % 2 == 0 {
+        // all start ranges are wide: nothing is mandatory when the constraint is posted, the
+        // time-table grows incrementally while unary clauses fix the tasks one after the other
+        let nshort = g.rng.gen_range(2..=3);
+        let horizon = 6;
+        let mut dd = vec![];
+        let mut rr = vec![];
+        let mut fix: Vec<(View, i32)> = vec![];
+        let mut at = g.rng.gen_range(0..=2);
+        let first = at;
+        for _ in 0..nshort {
+            // (ranges are kept narrow for the oracle's sake, but wider than the duration)
+            at = at.min(horizon);
+            let v = g.add_int_var_with(((at - 1).max(0)..=(at + 1).min(horizon)).collect(), false);
+            let x = View::var(v);
+            starts.push(x);
+            let dur = g.rng.gen_range(1..=2);
+            dd.push(dur);
+            rr.push(1);
+            fix.push((x, at.min(horizon)));
+            at += dur + g.rng.gen_range(0..=2); // gaps of 0, 1 or 2 time-points between the parts
+        }
+        // the spanning task: covers the short ones (and the gaps between them)
+        let span = (at - first).clamp(2, 5) - g.rng.gen_range(0..=1);
+        let sfix = (first - g.rng.gen_range(0..=1)).max(0);
+        let slo = (sfix - g.rng.gen_range(0..=span)).max(0);
+        let v = g.add_int_var_with((slo..=(slo + span).min(horizon)).collect(), false);
+        let x = View::var(v);
+        starts.push(x);
+        dd.push(span);
+        rr.push(1);
+        fix.push((x, sfix.min((slo + span).min(horizon))));
+        // the probe: uses the whole capacity, so it fits only where nothing else runs
+        let probe = g.add_int_var_with((0..=horizon).collect(), false);
+        starts.push(View::var(probe));
+        dd.push(1);
+        cap = 2;
+        rr.push(2);
+        d = dd;
+        r = rr;
+        // declaration order of the tasks is shuffled, the order of fixing is not
+        let mut perm: Vec<usize> = (0..starts.len()).collect();
+        if g.rng.gen_bool(0.5) {
+            perm.shuffle(&mut g.rng);
+        }
+        let s2: Vec<View> = perm.iter().map(|k| starts[*k]).collect();
+        let d2: Vec<i32> = perm.iter().map(|k| d[*k]).collect();
+        let r2: Vec<i32> = perm.iter().map(|k| r[*k]).collect();
+        g.post(Cons::Cumulative { s: s2, d: d2, r: r2, cap, opts: copts }, false);
+        if g.rng.gen_bool(0.3) {
+            let n = fix.len();
+            fix.swap(n - 1, n - 2);
+        }
+        for (x, k) in fix {
+            if g.rng.gen_bool(0.9) {
+                g.post(Cons::Clause { ps: vec![Pred { x, op: Op::Eq, k }] }, false);
+            }
+        }
+    } else {
+        let nt = g.rng.gen_range(2..=3);
+        let ns = g.rng.gen_range(2..=3);
+        let mut sw = vec![];
+        for _ in 0..ns {
+            sw.push(g.add_int_var_with(vec![0, 1], false));
+        }
+        let mut dd = vec![];
+        let mut rr = vec![];
+        for _ in 0..nt {
+            let w = g.rng.gen_range(4..=6);
+            let v = g.add_int_var_with((0..w).collect(), false);
+            starts.push(View::var(v));
+            dd.push(g.rng.gen_range(1..=3));
+            rr.push(1);
+        }
+        d = dd;
+        r = rr;
+        cap = if nt == 3 && g.rng.gen_bool(0.5) { 2 } else { 1 };
+        g.post(Cons::Cumulative { s: starts.clone(), d, r, cap, opts: copts }, false);
+        // one overloading configuration (every task pushed onto the same end of its range); most
+        // switches force exactly this configuration, so the same overload is derived repeatedly
+        let low = g.rng.gen_bool(0.6);
+        let config: Vec<Pred> = starts
+            .iter()
+            .map(|x| {
+                let hi = *g.info(x.v).vals.last().unwrap();
+                if low { Pred { x: *x, op: Op::Le, k: 0 } } else { Pred { x: *x, op: Op::Ge, k: hi } }
+            })
+            .collect();
+        for s_ in sw.iter() {
+            let on = g.rng.gen_bool(0.8);
+            let guard = Pred { x: View::var(*s_), op: if on { Op::Le } else { Op::Ge }, k: if on { 0 } else { 1 } };
+            let same = g.rng.gen_bool(0.75);
+            for (t, x) in starts.clone().iter().enumerate() {
+                let p = if same {
+                    config[t]
+                } else {
+                    let hi = *g.info(x.v).vals.last().unwrap();
+                    match g.rng.gen_range(0..3) {
+                        0 => Pred { x: *x, op: Op::Le, k: g.rng.gen_range(0..=1) },
+                        1 => Pred { x: *x, op: Op::Ge, k: hi - g.rng.gen_range(0..=1) },
+                        _ => Pred { x: *x, op: Op::Eq, k: g.rng.gen_range(0..=hi) },
+                    }
+                };
+                if same || g.rng.gen_bool(0.8) {
+                    g.post(Cons::Clause { ps: vec![guard, p] }, false);
+                }
+            }
+        }
+        order = sw;
+    }
+    let _ = order;
+    // input order (switches first) with a fixed value selector, or any brancher
+    let br = match g.rng.gen_range(0..3) {
+        0 => BrSpec { kind: "indep".into(), var: 2, val: 1 },
+        1 => BrSpec { kind: "indep".into(), var: 2, val: g.rng.gen_range(0..NUM_VAL_SEL) },
+        _ => g.random_brancher(),
+    };
+    g.steps.push(Step::Iterate { br, max: 100000, stop_at: None });
+    let mut opts = if g.rng.gen_bool(0.5) { Opts::default() } else { g.random_opts() };
+    if opts.restart_base <= 3 && opts.high_lbd_limit <= 4 {
+        opts.high_lbd_limit = 4000;
+    }
+    Scenario { fam: "cumulative2".into(), id: index, opts, steps: g.steps, engine: index % 3 == 0 }
+}
+
 /// `reif`: one constraint of the catalogue (index-driven kind) posted half-reified, reified or
 /// negated, with the reification literal free / forced before / forced after posting, all
 /// solutions iterated (C09).
@@ -866,6 +1005,22 @@ pub fn fam_reif(seed: u64, tier: &str, index: u64) -> Scenario {
         let c2 = g.random_cons();
         g.post(c2, false);
     }
+    // a second (half-)reified constraint over the same literal, either polarity: the two wrapped
+    // propagators then interact through the literal (one conflicts while the other has only been
+    // notified), which a single reified constraint never does
+    if g.rng.gen_bool(0.45) {
+        let k2 = *["lin_le", "lin_le", "lin_le", "lin_ne", "lin_eq", "bin_le", "max", "element", "lit_clause"]
+            .choose(&mut g.rng)
+            .unwrap();
+        let c2 = g.cons_of_kind(k2);
+        let r2 = if g.rng.gen_bool(0.5) { View::var(l) } else { View { v: l, s: -1, o: 1 } };
+        let w2 = if c2.is_negatable() && g.rng.gen_bool(0.5) {
+            Cons::Reif { r: r2, c: Box::new(c2) }
+        } else {
+            Cons::Imp { r: r2, c: Box::new(c2) }
+        };
+        g.post(w2, false);
+    }
     // unary side clauses on the integer variables: bounds then move for reasons outside the
     // constraint under test while the declared domains (over which entailment is judged) stay wide
     if g.rng.gen_bool(0.6) {
@@ -886,6 +1041,94 @@ pub fn fam_reif(seed: u64, tier: &str, index: u64) -> Scenario {
         opts.high_lbd_limit = 4000;
     }
     Scenario { fam: "reif".into(), id: index, opts, steps: g.steps, engine: true }
+}
+
+/// `rootbounds` (C12): no search at all. 4-5 variables, one constraint of an index-driven kind
+/// (maximum / minimum / element over up to 4 elements) between unary side clauses and a second
+/// random constraint; the root bounds of every variable and view are queried after each posting.
+pub fn fam_rootbounds(seed: u64, tier: &str, index: u64) -> Scenario {
+    let mut g = Gen::new(rng_for(seed, "rootbounds", index), params(tier));
+    g.p.max_space = g.p.max_space.min(2500);
+    let nv = g.rng.gen_range(4..=5);
+    for _ in 0..nv {
+        let _ = g.add_int_var();
+    }
+    let _ = g.add_lit();
+    let xs = g.all_views_for_bounds();
+    g.steps.push(Step::Bounds { xs });
+    let kinds = [
+        "max", "min", "lin_le", "lin_eq", "element", "max", "min", "times", "div", "abs", "plus",
+        "lin_ne", "bin_le", "bin_eq", "alldiff", "cumulative", "bool_lin_le", "bool_lin_eq", "bin_ne",
+    ];
+    let kind = kinds[(index as usize) % kinds.len()];
+    let side = |g: &mut Gen| {
+        for _ in 0..g.rng.gen_range(0..=2) {
+            let v = *g.int_vars().choose(&mut g.rng).unwrap();
+            let mut p = g.pred_on(View::var(v));
+            p.op = *[Op::Ge, Op::Le, Op::Ne, Op::Ge, Op::Le].choose(&mut g.rng).unwrap();
+            g.post(Cons::Clause { ps: vec![p] }, true);
+        }
+    };
+    side(&mut g);
+    let c = match kind {
+        "max" | "min" => {
+            let n = g.rng.gen_range(3..=4.min(g.int_vars().len() - 1));
+            let xs = g.distinct_views(n);
+            let y = g.some_int_view();
+            if kind == "max" { Cons::Max { xs, y } } else { Cons::Min { xs, y } }
+        }
+        k => g.cons_of_kind(k),
+    };
+    g.post(c, true);
+    side(&mut g);
+    if g.rng.gen_bool(0.5) {
+        let c2 = g.random_cons();
+        g.post(c2, true);
+        side(&mut g);
+    }
+    Scenario { fam: "rootbounds".into(), id: index, opts: Opts::default(), steps: g.steps, engine: false }
+}
+
+/// `reif2`: two or three (half-)reified constraints (mostly linear inequalities, the only
+/// propagator with an incremental inconsistency check) over ONE reification literal in either
+/// polarity. While one wrapped propagator has merely been notified of an inconsistency the other
+/// one conflicts, the search backjumps (possibly to the root) and the first one must not act on
+/// what it cached. All solutions are iterated (C09).
+pub fn fam_reif2(seed: u64, tier: &str, index: u64) -> Scenario {
+    let mut g = Gen::new(rng_for(seed, "reif2", index), params(tier));
+    g.p.max_space = g.p.max_space.min(150);
+    let nv = g.rng.gen_range(3..=4);
+    for _ in 0..nv {
+        let _ = g.add_int_var();
+    }
+    let _ = g.add_lit();
+    let l = g.add_lit();
+    let n = g.rng.gen_range(2..=3);
+    for _ in 0..n {
+        let k = *["lin_le", "lin_le", "lin_le", "lin_le", "lin_ne", "lin_eq", "lit_clause", "bin_le"]
+            .choose(&mut g.rng)
+            .unwrap();
+        let c = g.cons_of_kind(k);
+        let r = if g.rng.gen_bool(0.5) { View::var(l) } else { View { v: l, s: -1, o: 1 } };
+        let w = if c.is_negatable() && g.rng.gen_bool(0.5) {
+            Cons::Reif { r, c: Box::new(c) }
+        } else {
+            Cons::Imp { r, c: Box::new(c) }
+        };
+        g.post(w, false);
+    }
+    let br = match g.rng.gen_range(0..3) {
+        0 => BrSpec { kind: "default".into(), var: 0, val: 0 },
+        1 => BrSpec { kind: "indep".into(), var: 2, val: g.rng.gen_range(0..NUM_VAL_SEL) },
+        _ => g.random_brancher(),
+    };
+    g.steps.push(Step::Iterate { br, max: 100000, stop_at: None });
+    let opts = if g.rng.gen_bool(0.5) { Opts::default() } else { g.random_opts() };
+    let mut opts = opts;
+    if opts.restart_base <= 3 && opts.high_lbd_limit <= 4 {
+        opts.high_lbd_limit = 4000;
+    }
+    Scenario { fam: "reif2".into(), id: index, opts, steps: g.steps, engine: index % 4 == 0 }
 }
 
 /// A model with enough conflicts to exercise learning, restarts and nogood deletion: 4-6
@@ -1181,6 +1424,9 @@ pub fn generate(fam: &str, seed: u64, tier: &str, index: u64) -> Scenario {
         "exh_clause" => fam_exh_clause(seed, tier, index),
         "exh_kind" => fam_exh_kind(seed, tier, index),
         "big" => crate::big::fam_big(seed, tier, index),
+        "reif2" => fam_reif2(seed, tier, index),
+        "cumulative2" => fam_cumulative2(seed, tier, index),
+        "rootbounds" => fam_rootbounds(seed, tier, index),
         "interrupt_base" => fam_interrupt_base(seed, tier, index),
         other => panic!("harness: unknown family {other}"),
     }
